@@ -71,12 +71,16 @@ def run(tier: str, seed: int, only=None) -> Result:
         f"[typed] arguments: representations of values of the declared types (nesting <= {depth + 1}, lengths <= {width}); [anydata]: arbitrary Data (depth <= {depth}, width <= {width})",
         "the program quantifier is sampled (corpus); the argument quantifier is decided by z3; traces are ignored by construction",
     ]
-    res.bounds = {"data depth": depth, "width": width, "variants": [f"{l}/{s}" for l, s in variants], "baseline": "silent/all"}
+    res.bounds = {"data depth": depth, "width": width, "variants": [f"{l}/{s}" for l, s in variants], "baseline": "silent/all",
+                  "thorough": "all variants on corpus/*.ak, verbose/all and compact/all on the acceptance projects"}
     res.extra["explanation"] = "programs compiled under different Tracing settings compared for all arguments by symbolic execution (z3), disagreements replayed natively"
     res.extra["trusted_base"] = ["uplcsym (symbolic CEK)", "driver drv-lang (real compiler)", "z3 5.1"]
     kf = KnownFindings()
     mods = [m for m in U.corpus(tier, seed) if not only or only in m[0]]
-    U.merge(res, U.pmap(_module_job, [(m, tier, seed, depth, width, variants) for m in U.chunked(mods)]))
+    # thorough: every level x scope on the hand-written corpus (where the tracing-sensitive constructs are), the two levels with all
+    # traces on the whole acceptance corpus
+    jobs = [(m, tier, seed, depth, width, variants if (tier == "quick" or m[0].startswith("corpus/")) else variants[:2]) for m in U.chunked(mods)]
+    U.merge(res, U.pmap(_module_job, jobs))
     res.extra.setdefault("programs", 0)
     res.extra.setdefault("disagreements_checked", 0)
     from props import common_post
